@@ -146,6 +146,39 @@ class IOTable:
             if len(l) == 1 and len(r) == 1:
                 return [l[0] + r[0]]
             return l[:-1] + [l[-1] + r[0]] + r[1:]
+        # pathlib spellings of the same paths: Path(a, b) / 'c', str(<path>), Path(__file__).resolve().parent
+        def _is_pathish(e):
+            if isinstance(e, ast.BinOp) and isinstance(e.op, ast.Div):
+                return True
+            if isinstance(e, ast.Call) and call_name(e) in ('Path', 'pathlib.Path', 'PurePath', 'pathlib.PurePath'):
+                return True
+            if isinstance(e, ast.Attribute) and e.attr == 'parent':
+                return True
+            if isinstance(e, ast.Call) and isinstance(e.func, ast.Attribute) and e.func.attr in ('resolve', 'absolute', 'joinpath', 'with_name'):
+                return _is_pathish(e.func.value)
+            if isinstance(e, ast.Name):
+                fn_ = self.repo.fn(qual) if qual.partition('::')[2] != '<module>' else None
+                if fn_ is not None:
+                    sts_ = stores_in(fn_).get(e.id, [])
+                    return len(sts_) == 1 and sts_[0][1] is not None and _is_pathish(sts_[0][1])
+            return False
+        if isinstance(node, ast.BinOp) and isinstance(node.op, ast.Div):
+            return self.path_parts(qual, node.left, env, depth - 1, at_line) + self.path_parts(qual, node.right, env, depth - 1, at_line)
+        if isinstance(node, ast.Call) and call_name(node) in ('Path', 'pathlib.Path', 'PurePath', 'pathlib.PurePath') and node.args:
+            out = []
+            for a in node.args:
+                out.extend(self.path_parts(qual, a, env, depth - 1, at_line))
+            return out
+        if isinstance(node, ast.Call) and isinstance(node.func, ast.Attribute) and node.func.attr == 'joinpath' and _is_pathish(node.func.value):
+            out = self.path_parts(qual, node.func.value, env, depth - 1, at_line)
+            for a in node.args:
+                out.extend(self.path_parts(qual, a, env, depth - 1, at_line))
+            return out
+        if U(node) in ('Path(__file__).resolve().parent', 'pathlib.Path(__file__).resolve().parent', 'Path(__file__).parent.resolve()',
+                       'Path(__file__).absolute().parent', 'os.path.dirname(os.path.abspath(__file__))'):
+            return ['<%s>' % 'os.path.dirname(os.path.realpath(__file__))'[:30]]
+        if isinstance(node, ast.Call) and call_name(node) in ('str', 'os.fspath') and len(node.args) == 1 and _is_pathish(node.args[0]):
+            return self.path_parts(qual, node.args[0], env, depth - 1, at_line)
         if isinstance(node, ast.Call) and call_name(node) == 'str':
             return ['<key>']
         if isinstance(node, ast.Call) and isinstance(node.func, ast.Attribute) and node.func.attr == 'get' \
